@@ -255,17 +255,18 @@ theorem C18_bytes_range_only (s : List Char) (h : convertStr s = .error .range) 
     · next l hl => exact ⟨value, factor, l, hs, hl, litToBytes_range_only l factor h⟩
     · cases h
 
-example : convertStr "1e1000".toList = .ok (10 ^ 1000) := by decide +kernel
-example : convertStr "0.1e1001".toList = .ok (10 ^ 1000) := by decide +kernel
-example : convertStr "9.99e1000".toList = .ok (999 * 10 ^ 998) := by decide +kernel
-example : convertStr "1e1001".toList = .error .range := by decide +kernel
-example : convertStr "10e1000".toList = .error .range := by decide +kernel
-example : convertStr "0.1e1002".toList = .error .range := by decide +kernel
-example : convertStr "1e-1000".toList = .error .nonInteger := by decide +kernel
-example : convertStr "1e-1001".toList = .error .range := by decide +kernel
-example : convertStr "1e999999999 kB".toList = .error .range := by decide +kernel
-example : convertStr "0e999999999".toList = .ok 0 := by decide +kernel
-example : convertStr "1e1000000000000000000".toList = .error .nonInteger := by decide +kernel   -- Decimal: InvalidOperation
+-- boundary of the range test (stated relative to the extracted bound, so that a different bound breaks only `C18_bytes_steps`)
+example : GeneratedC18.adjustedBound = 1000 → convertStr "1e1000".toList = .ok (10 ^ 1000) := by decide +kernel
+example : GeneratedC18.adjustedBound = 1000 → convertStr "0.1e1001".toList = .ok (10 ^ 1000) := by decide +kernel
+example : GeneratedC18.adjustedBound = 1000 → convertStr "9.99e1000".toList = .ok (999 * 10 ^ 998) := by decide +kernel
+example : GeneratedC18.adjustedBound = 1000 → convertStr "1e1001".toList = .error .range := by decide +kernel
+example : GeneratedC18.adjustedBound = 1000 → convertStr "10e1000".toList = .error .range := by decide +kernel
+example : GeneratedC18.adjustedBound = 1000 → convertStr "0.1e1002".toList = .error .range := by decide +kernel
+example : GeneratedC18.adjustedBound = 1000 → convertStr "1e-1000".toList = .error .nonInteger := by decide +kernel
+example : GeneratedC18.adjustedBound = 1000 → convertStr "1e-1001".toList = .error .range := by decide +kernel
+example : GeneratedC18.adjustedBound = 1000 → convertStr "1e999999999 kB".toList = .error .range := by decide +kernel
+example : GeneratedC18.adjustedBound = 1000 → convertStr "0e999999999".toList = .ok 0 := by decide +kernel
+example : GeneratedC18.adjustedBound = 1000 → convertStr "1e1000000000000000000".toList = .error .nonInteger := by decide +kernel   -- Decimal: InvalidOperation
 
 /-- The statements of `convert_to_bytes` the model mirrors are all present, in the modelled order (exact rational
 arithmetic on a `Decimal`, not float; the exponent range test precedes the conversion), and the bound is 1000. -/
